@@ -1,6 +1,7 @@
 package main
 
 import (
+	"io"
 	"bufio"
 	"bytes"
 	"encoding/hex"
@@ -196,6 +197,62 @@ func scanTokens(stream []byte) [][]byte {
 	return toks
 }
 
+// scanTokensFragmented delivers the stream through a real bufio.Scanner under several read fragmentations (whole,
+// one byte per read, a single cut at each of the first positions and before the checksum, the frame twice in a row
+// cut inside the second header, a random schedule); returns the tokens of the first fragmentation that differs
+// from the whole-stream ones (so the comparison with the model fails on it), else the whole-stream tokens.
+func scanTokensFragmented(c *ctx, f []byte) [][]byte {
+	whole := scanTokens(f)
+	same := func(a, b [][]byte) bool {
+		if len(a) != len(b) {
+			return false
+		}
+		for i := range a {
+			if !bytes.Equal(a[i], b[i]) {
+				return false
+			}
+		}
+		return true
+	}
+	var scheds [][]int
+	ones := make([]int, len(f))
+	for i := range ones {
+		ones[i] = 1
+	}
+	if len(f) <= 600 || c.thorough() {
+		scheds = append(scheds, ones)
+	}
+	for cut := 1; cut <= 7 && cut < len(f); cut++ {
+		scheds = append(scheds, []int{cut, len(f) - cut})
+	}
+	if len(f) > 2 {
+		scheds = append(scheds, []int{len(f) - 1, 1})
+		k := 1 + c.rng.Intn(len(f)-1)
+		scheds = append(scheds, []int{k, 0, len(f) - k})
+	}
+	for _, sch := range scheds {
+		toks, _ := runScanner(f, sch, io.EOF, false)
+		if !same(toks, whole) {
+			c.count("fragmentation-differs")
+			return toks
+		}
+	}
+	// the same frame twice: the second header split after its preamble, when the first frame has been consumed
+	if len(f) <= 600 {
+		two := append(append([]byte(nil), f...), f...)
+		toks, _ := runScanner(two, []int{len(f) + 1, len(f) - 1}, io.EOF, false)
+		ref := scanTokens(two)
+		if !same(toks, ref) {
+			c.count("fragmentation-differs")
+			if len(toks) > 0 {
+				return toks[:len(toks)-1]
+			}
+			return nil
+		}
+	}
+	return whole
+}
+
 func nlists(bs [][]byte) string {
 	s := "["
 	for i, b := range bs {
@@ -292,7 +349,7 @@ func init() {
 						acc = "APanic"
 					}
 				}
-				protect(func() { toks = scanTokens(f) })
+				protect(func() { toks = scanTokensFragmented(c, f) })
 			}
 			c.emit("newmsg", tup(us(uint64(mid)), nlist(p), fr, us(uint64(v)), nlists(toks), acc))
 		}
